@@ -768,5 +768,90 @@ def no_stale(ctx):
                        'paraxial results no longer describe the current lens')
 
 
-RULES = [no_stale, parax_eq, invariant_step, parax_linear, crossing, signed_return,
+def records(ctx):
+    from .C02 import records as _r
+    return _r(ctx)
+
+
+def chief_ray(ctx):
+    P = ctx.P
+    res = Result('CHIEF-RAY', 'chief ray: axial ray from the stop centre traced '
+                 'backwards, rescaled by linearity so that the object-space '
+                 'slope is tan(max field) (angular fields) or the object '
+                 'height is the max field (height fields), then traced '
+                 'forwards from the first surface')
+    f = P.func('Paraxial.chief_ray')
+    res.saw(f)
+    calls = [c for c in ast.walk(f.node) if isinstance(c, ast.Call) and
+             isinstance(c.func, ast.Attribute) and
+             c.func.attr == '_trace_generic']
+    if len(calls) != 3:
+        raise AnalysisError('chief_ray: expected three paraxial traces')
+    for ft, what in (('angle', 'slope'), ('object_height', 'height')):
+        sym = Sym()
+        got = []
+
+        def inline(call, ev):
+            fn = call.func
+            if isinstance(fn, ast.Attribute) and fn.attr == '_trace_generic':
+                k = len(got)
+                got.append(([ev.ev(a) for a in call.args],
+                            {kw.arg: unparse(kw.value) for kw in call.keywords}))
+                return (A(f'Y{k}'), A(f'U{k}'))
+            if isinstance(fn, ast.Attribute) and fn.attr == 'inverted':
+                return A('INV')
+            return None
+
+        def choose(test, ev, ft=ft):
+            s_ = unparse(test)
+            if 'field_type ==' in s_:
+                return f"'{ft}'" in s_
+            return None
+        ev = Ev(sym=sym, inline=inline, choose=choose)
+        try:
+            ev.run(f.node.body)
+        except Inconclusive as e:
+            raise AnalysisError(f'chief_ray: {e}')
+        if len(got) != 3:
+            raise AnalysisError('chief_ray: traces not reached')
+        (a0, k0), (a1, k1), (a2, k2) = got
+        mf = A('self.optic.fields.max_y_field')
+        # linear rescaling: slope u1 = u0 * target / achieved
+        if ft == 'angle':
+            tgt = sym.sin(mf * A('pi') / C(180)) / sym.cos(mf * A('pi') / C(180))
+            ok = sym.eq(a1[1] * A('U0[-1]'), a0[1] * tgt)
+        else:
+            ok = sym.eq(a1[1] * A('Y0[-1]'), a0[1] * mf)
+        ok = ok and rat_eq(a1[0], a0[0]) and rat_eq(a0[0], ZERO) and \
+            rat_eq(a1[2], a0[2]) and k0.get('reverse') == 'True' and \
+            k1.get('reverse') == 'True' and k0.get('skip') == k1.get('skip') \
+            and 'stop_index' in (k0.get('skip') or '')
+        if ok:
+            res.ok(f'{ft} fields: second reverse trace rescaled to the '
+                   f'requested object-space {what}')
+        else:
+            res.fail(ctx.finding(
+                'CHIEF-RAY', f, f.node,
+                f'{ft} fields: the chief ray is not the stop-centre ray '
+                f'rescaled (by linearity) to the maximum field {what}',
+                construct=f'chief ray scaling {ft}'))
+        # forward launch: the reversed ray (y, u') is the forward ray (y, -u'):
+        # launch must be proportional to (Y1[-1], -U1[-1])
+        y_l, u_l, z_l = a2[0], a2[1], a2[2]
+        crossp = y_l * (-A('U1[-1]')) - u_l * A('Y1[-1]')
+        nz = not rat_eq(y_l, ZERO)
+        if rat_eq(crossp, ZERO) and nz and 'reverse' not in k2 and \
+                'positions[1]' in repr(z_l):
+            res.ok(f'{ft} fields: forward trace launched from the first '
+                   f'surface with the mirrored reverse ray')
+        else:
+            res.fail(ctx.finding(
+                'CHIEF-RAY', f, calls[2],
+                f'{ft} fields: the forward chief ray is not the reverse-traced '
+                f'ray turned around at the first surface',
+                construct=f'chief ray forward launch {ft}'))
+    return res
+
+
+RULES = [no_stale, records, chief_ray, parax_eq, invariant_step, parax_linear, crossing, signed_return,
          fno_epd, mag_inv, inverted4, object_position]
